@@ -11,6 +11,10 @@ import (
 	v3 "istio.io/istio/pilot/pkg/xds/v3"
 	"istio.io/istio/pkg/util/sets"
 	vp "istio.io/istio/pkg/zzvp"
+	"google.golang.org/protobuf/proto"
+	"google.golang.org/protobuf/types/known/anypb"
+	"istio.io/istio/pkg/config/schema/kind"
+	workloadsecurity "istio.io/istio/pkg/workloadapi/security"
 )
 
 type verifSotwStream struct {
@@ -189,4 +193,92 @@ func VerifC05Twin() {
 	con := &Connection{proxy: proxy, deltaStream: verifDeltaStream{sent: &sent}}
 	s.processDeltaRequest(&discovery.DeltaDiscoveryRequest{TypeUrl: v3.ClusterType, ResponseNonce: vp.String("n", 2), InitialResourceVersions: map[string]string{"a": "v"}}, con)
 	vp.Assert(len(sent) == 0, "twin")
+}
+
+// ---------------------------------------------------------------- ztunnel (ambient) reconnect
+
+// the ambient index as the WorkloadRBACGenerator sees it: the policies that exist now
+type verifAmbient struct {
+	model.AmbientIndexes // nil: only Policies is used
+	exists               [4]bool
+}
+
+func (a verifAmbient) Policies(requested sets.Set[model.ConfigKey]) []model.WorkloadAuthorization {
+	var out []model.WorkloadAuthorization
+	for i, n := range verifUniverse[:verifUniverseN()] {
+		if !a.exists[i] {
+			continue
+		}
+		k := model.ConfigKey{Kind: kind.AuthorizationPolicy, Name: n, Namespace: "ns"}
+		if len(requested) > 0 && !requested.Contains(k) {
+			continue
+		}
+		out = append(out, model.WorkloadAuthorization{Authorization: &workloadsecurity.Authorization{Name: n, Namespace: "ns"}})
+	}
+	return out
+}
+
+func verifMessageToAny(msg proto.Message) *anypb.Any { return &anypb.Any{} }
+
+// A ztunnel reconnects to a fresh stream with a wildcard subscription to workload authorization policies and presents
+// the policies it retained: it is sent every policy that exists now and is told to remove every retained policy that
+// does not exist any more (the REAL WorkloadRBACGenerator computes the removals from the server's record of the
+// stream); a later forced push after further deletions removes those as well.
+func VerifC05ZtunnelReconnect() {
+	_, exists := verifSubset("wads.exists")
+	_, retained := verifSubset("wads.retained")
+	var sent []*discovery.DeltaDiscoveryResponse
+	proxy := &model.Proxy{ID: "z", Type: model.Ztunnel, Metadata: &model.NodeMetadata{}, WatchedResources: map[string]*model.WatchedResource{},
+		LastPushContext: &model.PushContext{PushVersion: "v1"}}
+	amb := &verifAmbient{exists: exists}
+	s := &DiscoveryServer{Env: &model.Environment{AmbientIndexes: amb}}
+	s.Generators = map[string]model.XdsResourceGenerator{v3.WorkloadAuthorizationType: WorkloadRBACGenerator{Server: s}}
+	con := &Connection{proxy: proxy, deltaStream: verifDeltaStream{sent: &sent}}
+	oldNonce := vp.String("wads.oldNonce", 3)
+	initial := map[string]string{}
+	for i, n := range verifUniverse[:verifUniverseN()] {
+		if retained[i] {
+			initial["ns/"+n] = "v0"
+		}
+	}
+	req := &discovery.DeltaDiscoveryRequest{TypeUrl: v3.WorkloadAuthorizationType, ResponseNonce: oldNonce, InitialResourceVersions: initial}
+	if vp.Choice("wads.explicitWildcard", 2) == 1 {
+		req.ResourceNamesSubscribe = []string{"*"}
+	}
+	vp.Assert(s.processDeltaRequest(req, con) == nil, "no-error")
+	vp.Reach("ztunnel-resynced")
+	vp.Assert(len(sent) == 1, "ztunnel-request-on-new-stream-is-answered")
+	got := sets.New[string]()
+	for _, r := range sent[0].Resources {
+		got.Insert(r.Name)
+	}
+	removed := sets.New(sent[0].RemovedResources...)
+	for i, n := range verifUniverse[:verifUniverseN()] {
+		vp.Assert(got.Contains("ns/"+n) == exists[i], "current-policies-are-sent")
+		if retained[i] && !exists[i] {
+			vp.Assert(removed.Contains("ns/"+n), "retained-but-deleted-policy-is-removed")
+		}
+		if exists[i] {
+			vp.Assert(!removed.Contains("ns/"+n), "existing-policy-is-not-removed")
+		}
+	}
+	// later: some policies are deleted and a forced (full) push follows
+	_, still := verifSubset("wads.existsLater")
+	for i := range still {
+		still[i] = still[i] && exists[i]
+	}
+	amb.exists = still
+	sent = nil
+	w := proxy.GetWatchedResource(v3.WorkloadAuthorizationType)
+	vp.Assert(w != nil, "stream-is-recorded")
+	vp.Assert(s.pushDeltaXds(con, w, &model.PushRequest{Forced: true, Push: proxy.LastPushContext}) == nil, "no-error")
+	removedLater := sets.New[string]()
+	for _, r := range sent {
+		removedLater.InsertAll(r.RemovedResources...)
+	}
+	for i, n := range verifUniverse[:verifUniverseN()] {
+		if exists[i] && !still[i] {
+			vp.Assert(removedLater.Contains("ns/"+n), "policy-deleted-later-is-removed-by-the-forced-push")
+		}
+	}
 }
